@@ -29,6 +29,9 @@ for mp in sorted(glob.glob(os.path.join(HERE, 'seeded', '*', 'meta.json'))):
     caught = [p for p, c in checks.items() if c['exit'] == 1]
     what = next((c['what'] for c in checks.values() if c['exit'] == 1), '')
     what = what.replace('first violation: ', '').replace('|', '/')[:150]
+    if not caught and m.get('out_of_scope'):
+        print(f"| {m['id']} | {first} | not claimed (judged outside the property) | {m['out_of_scope'][:150].replace('|', '/')} |")
+        continue
     print(f"| {m['id']} | {first} | {', '.join(caught) + ' quick' if caught else '**MISSED**'} | {what} |")
 print('\n### 10.2 Own mutants (`mutants/specs.py`)\n')
 print('| mutant | property | repository tests | caught | first divergence reported |')
